@@ -30,15 +30,17 @@ PLANS = {
         "random": {"quick": (400, 7), "thorough": (6000, 8)},
     },
     "C18": {
-        "quick": [("idx3", "idx", 3, 16000, "simplify"), ("core3", "core", 3, 5000, "simplify"),
-                  ("beta3", "beta", 3, 4000, "simplify"), ("expr3", "expr", 3, 3000, "simplify")],
+        "quick": [("idx3", "idx", 3, 12000, "simplify"), ("core3", "core", 3, 4000, "simplify"),
+                  ("beta3", "beta", 3, 3000, "simplify"), ("expr3", "expr", 3, 3000, "simplify"),
+                  ("chainx4", "chainx", 4, 8000, "simplify")],
         "thorough": [("idx3", "idx", 3, None, "simplify"), ("core3", "core", 3, None, "simplify"),
                      ("beta3", "beta", 3, None, "simplify"), ("expr3", "expr", 3, None, "simplify"),
-                     ("fuse4", "fuse", 4, 60000, "simplify")],
+                     ("fuse4", "fuse", 4, 60000, "simplify"), ("chainx4", "chainx", 4, None, "simplify"),
+                     ("chainx5", "chainx", 5, 80000, "simplify")],
         "random": {"quick": (400, 7), "thorough": (6000, 8)},
     },
     "C14": {
-        "quick": [("chain1_4", "chain1", 4, None, "simplify"), ("chain4", "chain", 4, 12000, "simplify")],
+        "quick": [("chain1_4", "chain1", 4, None, "simplify"), ("chain1_5", "chain1", 5, 9000, "simplify")],
         "thorough": [("chain1_5", "chain1", 5, None, "simplify"), ("chain4", "chain", 4, None, "simplify")],
         "random": {"quick": (0, 0), "thorough": (0, 0)},
     },
